@@ -88,7 +88,8 @@ class RunExpectOracle(Contract):
         return outs
 
     def requires(self, v):
-        return [('C12:no-more-waiting-after-a-callback-asked-to-stop', Not(v.g['stop_requested']))]
+        return [('C12:no-more-waiting-after-a-callback-asked-to-stop', Not(v.g['stop_requested'])),
+                ('C12:a-string-returned-by-a-callback-is-sent-before-the-next-wait', Not(v.g['owed']))]
 
     def modifies(self, v, out):
         sp = v.old.self
@@ -109,6 +110,7 @@ class RunExpectOracle(Contract):
         lab = v.label
         g['nexpect'] = g['nexpect'] + 1
         g['last_index'] = int(lab.rsplit('-', 1)[1]) if '-' in lab else None
+        g['ended'] = v.raised is not None        # an unlisted EOF / TIMEOUT ends the run
         if lab.startswith('text'):
             g['pend'] = v.draw(TStr(k), 'pend')
             g['consumed'] = cat(g['consumed'], new.before, new.after)
@@ -150,6 +152,7 @@ class RunSendOracle(Contract):
     def effects(self, v):
         v.g['nsend'] = v.g['nsend'] + 1
         v.g['last_sent'] = v.old.s
+        v.g['owed'] = False
 
 
 class RunCloseOracle(Contract):
@@ -193,6 +196,7 @@ class Callback(Contract):
         g['ncb'] = g['ncb'] + 1
         g['last_cb_result'] = v.result
         g['stop_requested'] = And(Not(is_string_val(v.result, g['mode'])), truthy(v.result))
+        g['owed'] = is_string_val(v.result, g['mode'])       # a string returned by a callback has to be sent
 
 
 class RunLoop(LoopSpec):
@@ -212,6 +216,8 @@ class RunLoop(LoopSpec):
         lst = v.l.child_result_list
         return [('C12:collected-is-what-was-consumed', eq(list_join('', lst), v.g['consumed'])),
                 ('no-stop-pending', Not(v.g['stop_requested'])),
+                ('C12:nothing-owed-to-the-child', Not(v.g['owed'])),
+                ('not-ended', Not(v.g['ended'])),
                 ('accounting', eq(cat(v.g['consumed'], v.g['pend']), v.g['R'])),
                 ('C12:one-response-per-event', And(eq(v.l.event_count, v.g['nexpect']), v.l.event_count >= 0,
                                                    v.g['nsend'] + v.g['ncb'] >= v.g['nexpect'],
@@ -229,7 +235,7 @@ class Run(Contract):
         mode = b.choice('mode', ['b', 's'])
         b.ghost('mode', mode)
         for g, val in (('R', ''), ('consumed', ''), ('pend', ''), ('nexpect', 0), ('nsend', 0), ('ncb', 0),
-                       ('stop_requested', False), ('last_index', None), ('last_cb_result', None)):
+                       ('stop_requested', False), ('last_index', None), ('last_cb_result', None), ('owed', False), ('ended', False)):
             b.ghost(g, val)
         from pyvc.engine import to_spec as _ts
         b.ghost('fate_exit', _ts(b.ctx, b.ctx.heap, b.ctx.fresh(TOpt(T.Int), 'fate_exit')) if hasattr(b, 'ctx') else None)
@@ -289,6 +295,8 @@ class Run(Contract):
         out.append(('C12:complete-output-each-piece-once',
                     Or(eq(text, g['consumed']), eq(text, cat(g['consumed'], g['pend'])))))
         out.append(('C12:nothing-dropped-at-eof-or-timeout', Implies(Not(eq(text, g['consumed'])), eq(text, g['R']))))
+        out.append(('C12:stops-only-at-eof-timeout-or-when-a-callback-says-so', Or(g['ended'], g['stop_requested'])))
+        out.append(('C12:every-string-a-callback-returned-was-sent', Not(g['owed'])))
         if wes:
             out += [('C09+C12:true-exit-status', eq(res[1], g['fate_exit'])), ('C12:closed-before-reporting', eq(g.get('closed', 0), 1))]
         return out
